@@ -1,7 +1,7 @@
 SPECIFICATION Spec
 CONSTANTS
   Threads = {"t1", "t2", "t3"}
-  MaxOps = 4
+  MaxOps = 3
   Dev_UncheckedInPlace = FALSE
   Dev_SharedScratch = FALSE
 INVARIANTS RootImmutable NoDangling ResultIsSequential HeldValuesStable
